@@ -253,9 +253,18 @@ GrowPou == (\A p \in Range(unit.pous) : p.n # "EXTRA") /\ Edit(<<"grow:pou">>, [
 PlantDupStructElem == Edit(<<"plant:StructElemUnique", "PT">>, [unit EXCEPT !.types[3].elems = Append(@, [n |-> "x", ty |-> "BOOL", init |-> NoInit])])
 PlantBadSubrange == \E b \in {<<10, 1>>, <<5, 5>>} : Edit(<<"plant:SubrangeOrdered", "RNG", b[1], b[2]>>, [unit EXCEPT !.types[4].lo = b[1], !.types[4].hi = b[2]])
 PlantDupEnumValue == \E v \in {"LOW", "HIGH"} : Edit(<<"plant:EnumValuesUnique", "LEVEL", v>>, [unit EXCEPT !.types[1].vals = Append(@, v)])
-\* an undeclared name in every role of every statement of every POU
+\* an undeclared name in every role of every statement of every POU.  The name is one that exists nowhere ("zz"),
+\* or - scoping - one that IS declared, but not in this POU: a variable of the previous / next POU of the unit,
+\* or a global this POU has no VAR_EXTERNAL declaration for.
+OtherNames(i, k) == IF k \in PouIdx(unit) /\ k # i
+                    THEN {v.n : v \in {w \in VarsOf(unit.pous[k]) : w.ty \in {"INT", "BOOL"}}} \ (VarNames(unit.pous[i]) \cup {unit.pous[i].n})
+                    ELSE {}
+PickOne(S) == IF S = {} THEN {} ELSE {CHOOSE x \in S : TRUE}
+ForeignNames(i) == PickOne(OtherNames(i, i - 1)) \cup PickOne(OtherNames(i, i + 1))
+                   \cup PickOne({g.n : g \in Globals(unit)} \ (VarNames(unit.pous[i]) \cup {unit.pous[i].n}))
 PlantUndeclaredVar ==
   \E i \in PouIdx(unit), j \in 1..4, role \in {"tgt", "src", "wrap", "arg", "out", "pos"} :
+   \E zz \in {"zz"} \cup ForeignNames(i) :
     /\ j <= Len(unit.pous[i].body)
     /\ LET s == unit.pous[i].body[j]
        IN  /\ CASE role = "tgt"  -> s.k = "assign"
@@ -264,14 +273,14 @@ PlantUndeclaredVar ==
                 [] role = "arg"  -> s.k = "call" /\ s.named # <<>>
                 [] role = "out"  -> s.k = "call" /\ s.outs # <<>>
                 [] role = "pos"  -> s.k = "call" /\ s.pos # <<>>
-           /\ Edit(<<"plant:VarDeclared", unit.pous[i].n, j, role>>,
+           /\ Edit(<<"plant:VarDeclared", unit.pous[i].n, j, role, zz>>,
                    SetStmt(unit, i, j,
-                     CASE role = "tgt"  -> [s EXCEPT !.tgt = "zz"]
-                       [] role = "src"  -> [s EXCEPT !.src = IF s.src[1] = "var" THEN <<"var", "zz">> ELSE IF s.src[1] = "sum" THEN <<"sum", s.src[2], "zz">> ELSE <<"fcall", s.src[2], "zz">>]
-                       [] role = "wrap" -> [s EXCEPT !.wrap = <<s.wrap[1], "zz">>]
-                       [] role = "arg"  -> [s EXCEPT !.named[1] = <<s.named[1][1], "zz">>]
-                       [] role = "out"  -> [s EXCEPT !.outs[1] = <<s.outs[1][1], "zz">>]
-                       [] role = "pos"  -> [s EXCEPT !.pos[1] = "zz"]))
+                     CASE role = "tgt"  -> [s EXCEPT !.tgt = zz]
+                       [] role = "src"  -> [s EXCEPT !.src = IF s.src[1] = "var" THEN <<"var", zz>> ELSE IF s.src[1] = "sum" THEN <<"sum", s.src[2], zz>> ELSE <<"fcall", s.src[2], zz>>]
+                       [] role = "wrap" -> [s EXCEPT !.wrap = <<s.wrap[1], zz>>]
+                       [] role = "arg"  -> [s EXCEPT !.named[1] = <<s.named[1][1], zz>>]
+                       [] role = "out"  -> [s EXCEPT !.outs[1] = <<s.outs[1][1], zz>>]
+                       [] role = "pos"  -> [s EXCEPT !.pos[1] = zz]))
 \* an initial value that is not a value of the enumeration: in every variable class of every POU, in a structure element, in an alias
 PlantBadEnumInit ==
   \/ \E i \in PouIdx(unit), cls \in {"VAR", "VAR_INPUT", "VAR_OUTPUT"}, ty \in {"LEVEL", "LEVEL2"} :
@@ -289,9 +298,14 @@ PlantUnknownType ==
   \/ Edit(<<"plant:TypeDeclared", "LEVEL2", "alias">>, [unit EXCEPT !.types[2].base = "MISSING"])
 PlantStdlib == \E i \in PouIdx(unit), ty \in UnsupportedStd : "ns" \notin VarNames(unit.pous[i]) /\
                  Edit(<<"plant:StdlibSupported", unit.pous[i].n, ty>>, AddVarTo(unit, i, V("ns", "VAR", "-", ty, NoInit)))
+\* an invocation of something that is not an instance of this POU: a name declared nowhere ("ghost"), or - scoping -
+\* the name of an instance that another POU declares (the previous / next one: a leak between sibling declarations)
+ForeignInstances(i) == UNION {PickOne({v.n : v \in {w \in VarsOf(unit.pous[k]) : w.ty \in FBNames(unit)}} \ VarNames(unit.pous[i])) :
+                                 k \in {i - 1, i + 1} \cap PouIdx(unit)}
 PlantUnknownInstance == \E i \in PouIdx(unit), w \in {NoWrap, <<"if", "">>, <<"for", "">>} : HasIntVar(unit.pous[i]) /\
-                 Edit(<<"plant:FBInstanceDeclared", unit.pous[i].n, w[1]>>,
-                      AddStmtTo(unit, i, C(IF w = NoWrap THEN NoWrap ELSE <<w[1], IntVar(unit.pous[i]).n>>, "ghost", <<>>, <<>>, <<>>)))
+                 \E g \in {"ghost"} \cup ForeignInstances(i) :
+                 Edit(<<"plant:FBInstanceDeclared", unit.pous[i].n, w[1], g>>,
+                      AddStmtTo(unit, i, C(IF w = NoWrap THEN NoWrap ELSE <<w[1], IntVar(unit.pous[i]).n>>, g, <<>>, <<>>, <<>>)))
 \* the invocation faults, on the invocation of CALLER (2nd statement) and on a fresh invocation in every POU that has an instance
 CallSites(u) == {<<i, j>> \in PouIdx(u) \X (1..4) : j <= Len(u.pous[i].body) /\ u.pous[i].body[j].k = "call" /\ HasCallee(u, u.pous[i], u.pous[i].body[j])}
 PlantMix == \E c \in CallSites(unit) : LET s == unit.pous[c[1]].body[c[2]] IN s.named # <<>> /\
@@ -354,12 +368,12 @@ LabelTargets(e) ==
   CASE e[1] = "plant:StructElemUnique"      -> {"x", "PT"}
     [] e[1] = "plant:SubrangeOrdered"       -> {ToString(e[3]), ToString(e[4]), "RNG"}
     [] e[1] = "plant:EnumValuesUnique"      -> {e[3], "LEVEL"}
-    [] e[1] = "plant:VarDeclared"           -> {"zz"}
+    [] e[1] = "plant:VarDeclared"           -> {e[5]}
     [] e[1] = "plant:EnumValueDeclared"     -> {"NOPE"}
     [] e[1] = "plant:StmtEnumValueDeclared" -> {"NOPE"}
     [] e[1] = "plant:TypeDeclared"          -> {"MISSING"}
     [] e[1] = "plant:StdlibSupported"       -> {e[3]}
-    [] e[1] = "plant:FBInstanceDeclared"    -> {"ghost", "<call>"}
+    [] e[1] = "plant:FBInstanceDeclared"    -> {e[4], "<call>"}
     [] e[1] = "plant:InvocationNoMix"       -> {"<call>"}
     [] e[1] = "plant:InputsDeclared"        -> {"<call>", "bogus"}
     [] e[1] = "plant:PositionalArity"       -> {"<call>"}
